@@ -403,8 +403,9 @@ def check_pattern(chk: harness.Check, lab: xschema.PatternLab, writer: SdkWriter
 
 # --------------------------------------------------------------------------- driver
 def worker(args) -> Dict[str, Any]:
-    argv, shard, n_shards, n_models, n_instances, n_patterns, n_strings = args
+    argv, shard, n_shards, n_models, n_instances, n_patterns, n_strings, t0 = args
     chk = harness.Check("C14", "exploration", RULE, argv)
+    chk.t0 = t0  # budgets count from the start of the parent, warm-up included
     budget = chk.wall_budget(150, 780)
     try:
         lab = xschema.PatternLab()
@@ -421,16 +422,22 @@ def worker(args) -> Dict[str, Any]:
                               chk.rng("strings", source, pattern), n_strings, shrinks_left)
         finally:
             writer.close()
-        models: List[Tuple[str, str]] = []
-        if shard == 0:
-            models += c13.targeted_models()
-        if shard == 1 % n_shards:
-            models += corpus.small_common()
+        extra = c13.targeted_models() + corpus.small_common()
+        extra = [e for k, e in enumerate(extra) if k % n_shards == shard]
+        mmg: List[Tuple[str, str]] = []
         for i in range(shard, n_models, n_shards):
             m = xschema.generate_schema_model(chk.rng("model", i), c13.mmg_profile(i))
-            models.append((f"mmg/{chk.seed}/{i}", m.text))
+            mmg.append((f"mmg/{chk.seed}/{i}", m.text))
             for k, v in m.features.items():
                 chk.hist("mmg_features", k, v)
+        models: List[Tuple[str, str]] = []
+        while mmg or extra:
+            if mmg:
+                models.append(mmg.pop(0))
+            if mmg:
+                models.append(mmg.pop(0))
+            if extra:
+                models.append(extra.pop(0))
         for idx, (name, text) in enumerate(models):
             if chk.elapsed() > budget:
                 chk.count("models_skipped_for_budget", len(models) - idx)
@@ -452,7 +459,7 @@ def main(argv) -> int:
     xschema.warm_up()
     with concurrent.futures.ProcessPoolExecutor(max_workers=n_shards) as pool:
         jobs = [
-            pool.submit(worker, (list(argv), s, n_shards, n_models, n_instances, n_patterns, n_strings))
+            pool.submit(worker, (list(argv), s, n_shards, n_models, n_instances, n_patterns, n_strings, chk.t0))
             for s in range(n_shards)
         ]
         for job in jobs:
